@@ -33,7 +33,7 @@ RULE = (
     "or a table with >= 2 entries is permuted"
 )
 SPACE = {
-    "quick": "drivers: (i) 2-D pad on 2-face tables linking both axes x rule pairs x fill pairs x 2-D width sets; (ii) equivalent() on all pairs of 2-3-name signatures and their renamings; (iii) Grid(ds) for COMODO/SGRID datasets with 2-4 axes; (iv) get_metric/integrate on 3-axis registries with several partitions; (v) 2-D and 3-D pad on simple grids with per-axis rules and fill values; (vi) accept/reject of consistent and inconsistent 3-face link tables under every listing order; (vii) two-axis grid ufuncs (own and renamed dummy names, apply / decorator route) with widths and per-axis fill on both axes on 2- and 3-axis grids, arrays received by the function included; (viii) interp_like, get_metric from a corner-only measure, interp and diff-of-interp along 2-3 axes at once with per-axis rules and fill values; every execution with at most 2 non-default order choices (each choice ranges over all permutations of that set / table); literal seeds 0..11",
+    "quick": "drivers: (i) 2-D pad on 2-face tables linking both axes x rule pairs x fill pairs x 2-D width sets; (ii) equivalent() on all pairs of 2-3-name signatures and their renamings; (iii) Grid(ds) for COMODO/SGRID datasets with 2-4 axes; (iv) get_metric/integrate on 3-axis registries with several partitions; (v) 2-D and 3-D pad on simple grids with per-axis rules and fill values; (vi) accept/reject of consistent and inconsistent 3-face link tables under every listing order; (vii) two-axis grid ufuncs (own and renamed dummy names, apply / decorator route) with widths and per-axis fill on both axes on 2- and 3-axis grids, arrays received by the function included; (viii) interp_like, get_metric from a corner-only measure, interp and diff-of-interp along 2-3 axes at once with per-axis rules and fill values; (ix) shifts without `to` on axes with 3-5 positions (explicit and COMODO grids), and pad / diff / interp along one axis of three-face strips whose faces list only the axes they are linked on, under every listing order; every execution with at most 2 non-default order choices (each choice ranges over all permutations of that set / table); literal seeds 0..11",
     "thorough": "more tables/width sets/registries; all combinations of all permutations (no deviation bound, cap 6000 executions per configuration reported if hit); literal seeds 0..47",
 }
 BOUNDS = {"quick": {"seeds": 12, "deviations": 2}, "thorough": {"seeds": 48, "deviations": None}}
@@ -448,11 +448,81 @@ def run_move(cfg):
     return digest(tuple(r.dims), r.values)
 
 
-DRIVERS = {"pad": run_pad, "equiv": run_equiv, "comodo": run_parse, "sgrid": run_parse, "metric": run_metric, "simple": run_simple, "table": run_table, "ufunc": run_ufunc, "move": run_move}
+# ------------------------------------------------------------------ driver (ix): default shifts, three-face strips
+def misc_configs(tier):
+    cfgs = []
+    for li in range(4):
+        for route in ("explicit", "comodo"):
+            cfgs.append(("defaults", li, route))
+    for ti in range(3):
+        for what in ("pad", "diff", "interp"):
+            cfgs.append(("strip", ti, what))
+    return cfgs
+
+
+DEF_LAYOUTS = (("center", "left", "right"), ("center", "outer", "inner"), ("center", "left", "right", "outer", "inner"), ("center", "right", "outer"))
+STRIPS = (
+    # face 0 -X-> face 1 -X-> lower Y edge of face 2; every face lists only the axes along which it has a neighbour
+    {0: {"X": (None, (1, "X", False))}, 1: {"X": ((0, "X", False), (2, "Y", False))}, 2: {"Y": ((1, "X", False), None)}},
+    {0: {"Y": (None, (1, "Y", False))}, 1: {"Y": ((0, "Y", False), (2, "X", False))}, 2: {"X": ((1, "Y", False), None)}},
+    {0: {"X": ((2, "Y", True), (1, "X", False))}, 1: {"X": ((0, "X", False), None)}, 2: {"Y": ((0, "X", True), None)}},
+)
+
+
+def run_misc(cfg):
+    from xgcm import Grid
+    from xgcm.padding import pad
+
+    if cfg[0] == "defaults":
+        # an axis with the centre and several other positions: where a shift without `to` goes is documented, not left to chance
+        _, li, route = cfg
+        lay = DEF_LAYOUTS[li]
+        n = 3
+        shift = {"left": -0.5, "right": 0.5, "outer": None, "inner": None}
+        coords = {}
+        for p in lay:
+            d = "x_" + p[0]
+            m = S.pos_len(p, n)
+            attrs = {"axis": "X"}
+            if p != "center":
+                attrs["c_grid_axis_shift"] = shift[p] if shift[p] is not None else (-0.5 if p == "outer" else 0.5)
+            coords[d] = (d, np.arange(m) * 1.0, attrs)
+        ds = xr.Dataset(coords=coords)
+        if route == "comodo":
+            g = Grid(ds, periodic=False, boundary="extend")
+        else:
+            g = Grid(ds, coords={"X": {p: "x_" + p[0] for p in lay}}, periodic=False, boundary="extend", autoparse_metadata=False)
+        da = xr.DataArray(np.arange(n, dtype=float) ** 2 + 1, dims=["x_c"])
+        outs = [repr(g)]
+        for op in ("diff", "interp", "cumsum", "min"):
+            r = getattr(g, op)(da, "X")
+            outs += [tuple(r.dims), np.asarray(r.values, dtype=float)]
+        return digest(*outs)
+    _, ti, what = cfg
+    table = STRIPS[ti]
+    N = 3
+    ds = xr.Dataset(coords={"x": ("x", np.arange(N) + 0.5), "xl": ("xl", np.arange(N) * 1.0), "y": ("y", np.arange(N) + 0.5),
+                            "yl": ("yl", np.arange(N) * 1.0), "face": ("face", [0, 1, 2])})
+    listed = permuted_dict({f: permuted_dict(ax, "axes-of-face") for f, ax in table.items()}, "faces")
+    g = Grid(ds, coords={"X": {"center": "x", "left": "xl"}, "Y": {"center": "y", "left": "yl"}}, face_connections={"face": listed},
+             periodic=False, boundary="extend", autoparse_metadata=False)
+    ax = "Y" if ti == 1 else "X"
+    dc = xr.DataArray(np.arange(3 * N * N, dtype=float).reshape(3, N, N) ** 2, dims=["face", "y", "x"])
+    dl = xr.DataArray(np.sqrt(np.arange(3 * N * N, dtype=float)).reshape(3, N, N), dims=["face", "yl" if ax == "Y" else "y", "x" if ax == "Y" else "xl"])
+    if what == "pad":
+        r = pad(dc, g, {ax: (1, 1)}, boundary="extend")
+    elif what == "diff":
+        r = g.diff(dl, ax)
+    else:
+        r = g.interp(dc, ax)
+    return digest(tuple(r.dims), r.values)
+
+
+DRIVERS = {"pad": run_pad, "equiv": run_equiv, "comodo": run_parse, "sgrid": run_parse, "metric": run_metric, "simple": run_simple, "table": run_table, "ufunc": run_ufunc, "move": run_move, "defaults": run_misc, "strip": run_misc}
 
 
 def all_configs(tier):
-    return pad_configs(tier) + sig_pairs(tier) + parse_configs(tier) + metric_configs(tier) + simple_configs(tier) + table_configs(tier) + ufunc_configs(tier) + move_configs(tier)
+    return pad_configs(tier) + sig_pairs(tier) + parse_configs(tier) + metric_configs(tier) + simple_configs(tier) + table_configs(tier) + ufunc_configs(tier) + move_configs(tier) + misc_configs(tier)
 
 
 def cfg_json(cfg):
